@@ -186,6 +186,39 @@ def rr_inv0(which):
     return (which, f)
 
 
+WALK_VAR = "p"  # the name the carrier gives to the node the walk looks at next
+
+
+def rr_walk_var(E, v, o, entry):
+    """loop 0, only when the loop CARRIES the walk variable (`p = path[-1].parent()` before the loop and at the end of its body instead of the
+    walrus in the loop test): p is the parent of the last path node in the copy as it was at the loop head, None at the root"""
+    if WALK_VAR not in entry:
+        return True
+    p, t, te = v.get(WALK_VAR), v["tree"], entry["tree"]
+    if not isinstance(te, Obj) or not isinstance(v.get("path"), PList):
+        return False
+    P, L = _path(v)
+    up = z3.Select(ZA(col(te, "pid")), z3.Select(P, L - 1))
+    if p is None:
+        return up == -1
+    if not (isinstance(p, Obj) and p.fields.get("attach") is t and "idx" in p.fields):
+        return False
+    return z3.And(up != -1, to_z3(p.fields["idx"], "int") == up)
+
+
+def rr_opt_parent(eng, cur):
+    """rebind rule of loop 0 for a loop-carried walk variable: at the loop head it holds None or a handle on the tree the path's handles are on"""
+    from pyvc.engine import Unsupported
+    from pyvc.values import fresh
+
+    path = eng.visible_vars().get("path")
+    if not isinstance(path, ext_C07.NodeList):
+        raise Unsupported("redirect_tree loop 0: the walk variable is carried by the loop but `path` is not a list of node handles")
+    if eng.branch(fresh("bool", "walk_done")):
+        return None
+    return Obj(path.node_cls, dict(attach=path.attach, idx=fresh("int", "walk_at"), names=path.names))
+
+
 def _on_path(E, v, o, i, upto=None):
     """(position j, `node i sits at path position j with 1 <= j <= upto`): j = depth(r) - depth(i) is the only path position that can hold i"""
     t0, n, pid0, depth, root, r = _rr(E, v, o)
@@ -428,8 +461,9 @@ def register_redirect(R):
         ensures=ENSURES,
         options=dict(hints=HINTS),
         loops={
-            0: dict(invariant=[rr_inv0(w) for w in ("nonempty", "handles-on-the-copy", "starts-at-new-root", "nodes-in-range", "follows-parent-links", "depth-falls-by-one", "copy-untouched-by-the-walk")],
-                    types={"path": node_handles}, modifies=["tree.ndata"],
+            0: dict(invariant=[rr_inv0(w) for w in ("nonempty", "handles-on-the-copy", "starts-at-new-root", "nodes-in-range", "follows-parent-links", "depth-falls-by-one", "copy-untouched-by-the-walk")]
+                    + [("walk-variable-is-the-parent-of-the-last-node", rr_walk_var)],
+                    types={"path": node_handles}, modifies=["tree.ndata"], rebind={WALK_VAR: rr_opt_parent},
                     decreases="depth(path[len_(path) - 1].idx)"),
             1: dict(invariant=[rr_inv1(c) for c in KEYS + ["tag"]], modifies=["tree.ndata"]),
         },
